@@ -66,8 +66,7 @@ TRequest ==
              ELSE /\ changes' = obsAfter
                   /\ ReadyAgrees(changes')
           /\ UNCHANGED <<status, acfg>>
-          /\ mon' = [MonOf(op, S, from, mutated, res) EXCEPT !.same = (changes' = changes /\ Ev.st.same /\ Ev.st.nchg >= 0),
-                                                               !.idle = (Idle(op) /\ Ev.st.same)]
+          /\ mon' = [MonOf(op, S, from, mutated, res) EXCEPT !.same = (changes' = changes /\ Ev.st.same /\ Ev.st.nchg >= 0)]
 
 TInject ==
     /\ IsEv("Inject")
